@@ -76,6 +76,23 @@ def gen_plan(profile, seed, tier="quick"):
         slots.append(f)
         if f in catalog.INV_OF and rng.random() < 0.75:
             slots.append(catalog.INV_OF[f])
+    # "constructor storm" style (a quarter of the C15 runs): several slots of
+    # ONE family group, constructed concurrently with different parameters by
+    # all clients, then used; aimed at lazily initialised per-class / per-family
+    # shared state whose race window is a line or two wide
+    storm = profile == "C15" and rng.random() < 0.25
+    if storm:
+        f = _wchoice(rng, [("dwt2f", 3), ("dwt1f", 2), ("dtf", 3), ("scat", 1), ("scat2", 1)])
+        slots = [f] * rng.randrange(2, 4)
+        if f in catalog.INV_OF:
+            slots += [catalog.INV_OF[f]] * rng.randrange(1, 3)
+        if n_clients == 1:
+            n_clients = 2
+            knobs["n_clients"] = 2
+        if knobs["policy"] == "boundary":
+            knobs["policy"] = "pct"
+        knobs["pct_depth"] = rng.randrange(1, 3)
+    knobs["storm"] = storm
     # op mix (swarm): each optional kind enabled with probability 0.75
     mix = {}
     for k, wgt in BASE_MIX[profile].items():
@@ -110,13 +127,30 @@ def gen_plan(profile, seed, tier="quick"):
         return {"op": "construct", "id": new_id(), "slot": slot, "params": p}
 
     programs = [[] for _ in range(n_clients)]
-    prologue = rng.random() < 0.7
-    if prologue:
+    r = rng.random()
+    if storm:
+        r = 0.5          # concurrent prologue
+    prologue = r < 0.7
+    if r < 0.45:
+        # serial prologue: client 0 constructs every slot, then releases the others
         for s in range(len(slots)):
             programs[0].append(construct_op(s))
         programs[0].append({"op": "signal", "id": new_id()})
         for c in range(1, n_clients):
             programs[c].append({"op": "wait", "id": new_id()})
+    elif r < 0.7:
+        # concurrent prologue: the constructors of all slots race with each
+        # other (cold caches, lazily initialised shared state)
+        order = list(range(len(slots)))
+        rng.shuffle(order)
+        for i, s in enumerate(order):
+            programs[i % n_clients].append(construct_op(s))
+        if n_clients > 1 and rng.random() < 0.5:
+            extra = rng.randrange(len(slots))
+            programs[rng.randrange(n_clients)].append(construct_op(extra))
+        for c in range(n_clients):
+            programs[c].append({"op": "barrier", "id": new_id()})
+    knobs["prologue"] = "serial" if r < 0.45 else ("concurrent" if r < 0.7 else "none")
     n_ops_total = rng.randrange(3, 9) * n_clients if profile != "C18" else rng.randrange(3, 11) * n_clients
     if deep:
         n_ops_total = rng.randrange(8, 18) * n_clients
@@ -273,6 +307,8 @@ def gen_plan(profile, seed, tier="quick"):
         faults.append(gen_fault(rng, profile, c, o, slots))
     knobs["fault_budget"] = budget
     knobs["horizon"] = 150 * sum(len(p) for p in programs)
+    if storm:
+        knobs["horizon"] = 70 * (len(slots) + 1)
     return {"version": 1, "profile": profile, "property": profile, "seed": seed, "knobs": knobs,
             "slots": slots, "programs": programs, "faults": faults}
 
